@@ -35,6 +35,20 @@ CLAUSES = [
     tree(["classes/a.yml", "nodes/n.yml"], extra=[{"path": "classes/x.yml", "kind": "dir"}]),
     tree(["classes/x.yaml", "nodes/n.yml"], extra=[{"path": "classes/x.yml", "kind": "dir"}]),
     tree(["classes/a/b/c/d/e.yml", "nodes/g/h/i/n.yml"], compose=True),
+    # one file, two discovered names (symlinked directory / symlinked file): a node that includes BOTH names loads the
+    # file for each of them (the second load re-applies its values after the class in between; the file's relative
+    # include resolves against the directory of the name it was included by)
+    tree(["classes/real/a.yml", "classes/mid.yml"], extra=[
+        {"path": "classes/lnk", "kind": "symlink", "target": "real"},
+        {"path": "nodes/n1.yml", "content": {"classes": ["real.a", "mid", "lnk.a"]}}, {"path": "nodes/n2.yml", "content": {"classes": ["lnk.a", "mid", "real.a"]}},
+        {"path": "nodes/n3.yml", "content": {"classes": ["lnk.a"]}}, {"path": "nodes/n4.yml", "content": {"classes": ["real.a", "lnk.a", "mid"]}}]),
+    tree(["classes/a/y.yml", "classes/b/y.yml", "classes/mid.yml"], extra=[
+        {"path": "classes/a/x.yml", "content": {"classes": [".y"], "parameters": G.M([["marker", "classes/a/x.yml"], ["x", "x"]])}},
+        {"path": "classes/b/x.yml", "kind": "symlink", "target": "../a/x.yml"},
+        {"path": "nodes/n1.yml", "content": {"classes": ["a.x", "b.x"]}}, {"path": "nodes/n2.yml", "content": {"classes": ["b.x", "mid", "a.x"]}},
+        {"path": "nodes/n3.yml", "content": {"classes": ["b.x"]}}]),
+    tree(["classes/a.yml", "classes/mid.yml"], extra=[{"path": "classes/b.yml", "kind": "symlink", "target": "a.yml"},
+        {"path": "nodes/n1.yml", "content": {"classes": ["a", "mid", "b"]}}, {"path": "nodes/n2.yml", "content": {"classes": ["b", "mid", "a", "mid", "b"]}}]),
 ]
 
 
@@ -78,6 +92,15 @@ class C14(InvProp):
         for j in range(8 if tier == 'quick' else 100):
             rr = Rng(seed, 'C14:scale', j)
             yield GI2.scale_inventory(rr, tier, kind=rr.choice(['long_names', 'deep_dirs']))
+        for j in range(40 if tier == 'quick' else 800):
+            # class files reachable under a second name through a symlink, nodes including the alias alone or next to the
+            # real name in either order
+            rr = Rng(seed, 'C14:alias', j)
+            ca = GI.gen_inventory(rr, n_classes=rr.range(2, 6), shape=rr.choice(["tree", "dag", "chain"]), nested=True,
+                                  relative=rr.choice([0, 60, 100]), n_nodes=rr.range(1, 3))
+            if GI2.add_aliases(rr, ca):
+                ca["fam"] = "aliases"
+                yield ca
         N = 300 if tier == "quick" else 8000
         for i in range(N):
             r = Rng(seed, "C14", i)
